@@ -10,6 +10,7 @@ import (
 	"os"
 	"sort"
 	"strings"
+	"sync"
 	"testing"
 
 	"github.com/ovh/kmip-go"
@@ -191,6 +192,46 @@ func TestReplay(t *testing.T) {
 					probs = append(probs, "xml-unregistered-value-not-in-hex:"+xml)
 				}
 			}
+		case "vendortype":
+			registerVendorTypes()
+			var forms []string
+			var back []uint32
+			var err error
+			switch c.Name {
+			case "State":
+				forms, back, err = vendorTypeForms[State](c.Tag, uint32(c.Value))
+			case "ObjectType":
+				forms, back, err = vendorTypeForms[ObjectType](c.Tag, uint32(c.Value))
+			default:
+				forms, back, err = vendorTypeForms[VendorKind](c.Tag, uint32(c.Value))
+			}
+			if err != nil {
+				probs = append(probs, fmt.Sprintf("vendor-type-written-form-not-read-back:%v:%v", err, forms))
+			}
+			for _, b := range back {
+				if err == nil && int(b) != c.Value {
+					probs = append(probs, fmt.Sprintf("vendor-type-read-back-as-%d:%v", b, forms))
+					break
+				}
+			}
+			for _, f := range forms {
+				if c.VName != "" && !strings.Contains(f, c.VName) {
+					probs = append(probs, fmt.Sprintf("vendor-type-not-written-by-its-name:%s", f))
+					break
+				}
+				if c.VName == "" && (strings.Contains(f, "Locked") || strings.Contains(f, "Unlocked") || strings.Contains(f, "Active") || strings.Contains(f, "Key")) {
+					probs = append(probs, fmt.Sprintf("vendor-type-unregistered-value-written-by-a-name:%s", f))
+					break
+				}
+			}
+			if c.VName != "" {
+				// the name read as written by somebody else, in the type's own scope
+				var n uint32
+				var e error
+				if n, e = ttlv.EnumByName(c.Tag, c.VName); e != nil || int(n) != c.Value {
+					probs = append(probs, fmt.Sprintf("vendor-type-EnumByName=%d,%v", n, e))
+				}
+			}
 		case "name-in-scope", "name-out-of-scope":
 			// a value name denotes a value only in the enumeration it is registered in (decimal and 0x-prefixed numbers are the
 			// only other forms): the programmatic lookup and the XML / JSON readers agree with the registry
@@ -350,6 +391,50 @@ func dynTargetFor[T ~uint32](tag int, baseName string, baseVal uint32) dynTarget
 			}
 			return string(x), string(j), uint32(bx), uint32(bj), nil
 		}}
+}
+
+// enumeration types of an application, two of them called like standard tags (see Registry.tla, VendorTypeCases)
+type State uint32
+type ObjectType uint32
+type VendorKind uint32
+
+var vendorTypesOnce sync.Once
+
+func registerVendorTypes() {
+	vendorTypesOnce.Do(func() {
+		ttlv.RegisterEnum(0x540011, map[State]string{1: "Unlocked", 2: "Locked"})
+		ttlv.RegisterEnum(0x540012, map[ObjectType]string{1: "Unlocked", 2: "Locked"})
+		ttlv.RegisterEnum(0x540013, map[VendorKind]string{1: "Unlocked", 2: "Locked"})
+	})
+}
+
+// vendorTypeForms: the value written as a single item and as a member of a structure, in XML and JSON, read back into the same type
+func vendorTypeForms[T ~uint32](tag int, v uint32) (forms []string, back []uint32, err error) {
+	type holder struct {
+		Kind T
+	}
+	const holderTag = 0x540020
+	x, j := ttlv.MarshalXML(T(v)), ttlv.MarshalJSON(T(v))
+	ex, ej := ttlv.NewXMLEncoder(), ttlv.NewJSONEncoder()
+	ex.TagAny(holderTag, holder{Kind: T(v)})
+	ej.TagAny(holderTag, holder{Kind: T(v)})
+	hx, hj := append([]byte(nil), ex.Bytes()...), append([]byte(nil), ej.Bytes()...)
+	forms = []string{string(x), string(j), string(hx), string(hj), ttlv.EnumStr(T(v))}
+	var bx, bj T
+	var bhx, bhj holder
+	decH := func(mk func([]byte) (ttlv.Decoder, error), doc []byte, h *holder) error {
+		d, e := mk(doc)
+		if e != nil {
+			return e
+		}
+		return d.TagAny(holderTag, h)
+	}
+	for _, e := range []error{ttlv.UnmarshalXML(x, &bx), ttlv.UnmarshalJSON(j, &bj), decH(ttlv.NewXMLDecoder, hx, &bhx), decH(ttlv.NewJSONDecoder, hj, &bhj)} {
+		if e != nil && err == nil {
+			err = e
+		}
+	}
+	return forms, []uint32{uint32(bx), uint32(bj), uint32(bhx.Kind), uint32(bhj.Kind)}, err
 }
 
 // payload types of a vendor operation, named the way an application may name them: like those of a standard operation
